@@ -224,6 +224,9 @@ def Mon.frame (m : Mon) (f : Frame) : Mon × Option String :=
     | none => (m, some "synced-not-requested")
     | some (sq, rest) =>
       let p' := { p with syncs := rest, syncedOnce := true, syncedAt := m.t }
+      -- the remote asked to unlink after this request: the session was abandoned half way (frames sent before the
+      -- `unlinked` belong to the closed link, the rest re-links implicitly); no snapshot is claimed for it
+      if sq.voidable then (m.setPair f.r f.lane p', none) else
       if f.lane = 0 then
         -- the last value received must be one the lane held since the request
         match p.recvVals.getLast? with
